@@ -267,11 +267,13 @@ def reentrant(ctx, desc):
     for line in lines:
         th = T.TaskHandler()
         state = {'fired': False, 'inner_exc': None}
+        order = []      # what happened in which order: the task of the outer submission ran / the inner flush returned
 
         def inner():
             try:
                 if desc['inner'] == 'flush':
                     th.flush()
+                    order.append('flush-returned')
                 else:
                     th.submit_task(lambda: None)
             except T.IllegalStateException:
@@ -294,9 +296,9 @@ def reentrant(ctx, desc):
             try:
                 if fn == 'submit_task':
                     try:
-                        th.submit_task(lambda: None)
+                        state['future'] = th.submit_task(lambda: order.append('ran'))
                     except T.IllegalStateException:
-                        pass
+                        state['refused'] = True
                 else:
                     th.submit_task(lambda: None)
                     th.flush()
@@ -313,6 +315,16 @@ def reentrant(ctx, desc):
         if state['inner_exc'] is not None:
             ctx.violation(f'C09/reentrant-raised/{type(state["inner_exc"]).__name__}', f'{desc} at line {line}: {state["inner_exc"]!r}', desc)
             return
+        if fn == 'submit_task' and desc['inner'] == 'flush' and state.get('future') is not None:
+            # the submission was accepted although a flush closed the handler on the way: then the flush has waited for it
+            try:
+                state['future'].exception(5)
+            except BaseException:
+                pass
+            if 'flush-returned' in order and ('ran' not in order or order.index('ran') > order.index('flush-returned')):
+                ctx.violation('C09/accepted-after-close/reentrant-flush', f'flush() entered again by the thread executing line {line} of submit_task (a signal handler) closed the '
+                              f'handler and returned; the submission was then accepted all the same and its task ran afterwards: {order}', desc)
+                return
         try:
             th._pool.shutdown(wait=False)
         except BaseException:
